@@ -5,11 +5,12 @@
 (* fchebyshev_split / func_fit / TraceSet / traceset2xy / xy2traceset.                      *)
 (* root -> seed -> cases so that all TLC workers share the work.                            *)
 EXTENDS TraceSetPoly, TLC
-CONSTANTS Families,     \* subset of {"basis", "sweep", "masks", "zerow", "general", "tset"}
+CONSTANTS Families,     \* subset of {"basis", "sweep", "masks", "zerow", "general", "history", "tset"}
           Dens,         \* denominators of the abscissa grid for the bases
           CoefSel,      \* "full": sweep coefficients from -2..2, else from {-1, 0, 2}
           XIds,         \* abscissa sets used by the fit families
           ZIds,         \* abscissa sets of the zero-weight family (all subsets are enumerated)
+          HIds,         \* abscissa sets of the call-history family
           Lays,         \* trace-set layouts
           Mod,          \* 1: every case of the masks / zerow / general families; k > 1: every k-th (quick tier sample)
           TsMod         \* the same for the exact trace-set cases (the inexact ones are always all enumerated)
@@ -106,6 +107,31 @@ GeneralStep ==
        /\ (NFree(ia) = c.nc) => fm = "zero"
        /\ Emit(FitCase("general", c.basis, c.nc, c.xid, coef, ia, Ians(fm, coef, ia), WPat(wp, n), ZPat(zi, n), 7, DyPat(dp, n)))
 
+(* ------------------------------ call histories ------------------------- *)
+(* Several func_fit calls one after the other on the SAME data and the SAME vector of        *)
+(* prescribed values, each with its own free/fixed mask (the harness reuses one array object *)
+(* for x, y, invvar, ia and inputans).  A call is a function of its arguments only: the      *)
+(* outcome of call k is what the specification demands of that call alone.                   *)
+MaskNum(m) == LET RECURSIVE S(_) S(j) == IF j = 0 THEN 0 ELSE (IF m[j] THEN 2 ^ (j - 1) ELSE 0) + S(j - 1) IN S(Len(m))
+HistCase(b, nc, xid, fm, masks) ==
+  LET coef == Prefix(CoefPool[1], nc)                               \* every entry non-zero
+      pres == [j \in 1..nc |-> IF fm = "true" THEN coef[j] ELSE coef[j] + 1]   \* one vector for all calls
+      n == Len(XSet(xid))
+  IN [kind |-> "hist", basis |-> b, nc |-> nc, fm |-> fm,
+      calls |-> [k \in 1..Len(masks) |-> FitCase("history", b, nc, xid, coef, masks[k], pres, WPat(2, n), {}, 0, DyPat(0, n))]]
+HistExpected(h) == [k \in 1..Len(h.calls) |-> Expected(h.calls[k])]
+HistStep ==
+  /\ c.kind = "seed" /\ c.fam = "history"
+  /\ LET M == [1..c.nc -> BOOLEAN] IN
+     \E fm \in {"true", "off"} : \E m1 \in M : \E m2 \in M : \E m3 \in M \cup {<<>>} :
+       LET masks == IF m3 = <<>> THEN <<m1, m2>> ELSE <<m1, m2, m3>>
+           h == HistCase(c.basis, c.nc, c.xid, fm, masks) IN
+       /\ m1 # m2 /\ NFree(m2) < c.nc
+       /\ (m3 # <<>>) => (m3 # m2 /\ NFree(m3) < c.nc /\ fm = "true" /\ Keep(3 * MaskNum(m1) + 5 * MaskNum(m2) + 7 * MaskNum(m3)))
+       /\ \A k \in 1..Len(masks) : WellPosed(h.calls[k])
+       /\ c' = h
+       /\ exp' = HistExpected(h)
+
 (* ------------------------------ trace sets ------------------------------ *)
 Range(a, b) == [i \in 1..(b - a + 1) |-> I(a + i - 1)]
 Layout(l) ==
@@ -192,22 +218,25 @@ RootStep ==
      \* inexact data: the exact answers have large denominators, 4 coefficients only on the halves
      \/ "general" \in Families /\ \E b \in Bases : \E xid \in XIds : \E nc \in MinM(b)..(IF xid = 1 THEN 4 ELSE 3) :
           c' = FitSeed("general", b, nc, xid)
+     \/ "history" \in Families /\ \E b \in Bases : \E nc \in 2..3 : \E xid \in HIds : c' = FitSeed("history", b, nc, xid)
      \/ "zerow" \in Families /\ \E b \in Bases : \E nc \in MinM(b)..4 : \E xid \in ZIds : c' = FitSeed("zerow", b, nc, xid)
      \/ "tset" \in Families /\ \E b \in PolyBases : \E nc \in 1..4 : \E l \in Lays : c' = TsSeed(b, nc, l)
 
 Init == c = Root /\ exp = None
-Next == RootStep \/ BasisStep \/ SweepStep \/ MasksStep \/ ZeroStep \/ GeneralStep \/ TsStep
+Next == RootStep \/ BasisStep \/ SweepStep \/ MasksStep \/ ZeroStep \/ GeneralStep \/ HistStep \/ TsStep
 
 IsBasis == c.kind = "basis"
 IsPolyBasis == c.kind = "basis" /\ c.basis \in PolyBases
 IsFit == c.kind = "fit"
 IsTset == c.kind = "tset"
+IsHist == c.kind = "hist"
 
 (* ---- every number of every case and outcome fits TLC's integers (no NaR anywhere) ---- *)
 ProperAll(ss) == \A k \in 1..Len(ss) : AllProper(ss[k])
 C13_Representable ==
   /\ IsBasis => AllProper(exp.vals)
   /\ IsFit => (AllProper(c.y) /\ AllProper(exp.res) /\ AllProper(exp.yfit))
+  /\ IsHist => \A k \in 1..Len(c.calls) : (AllProper(exp[k].res) /\ AllProper(exp[k].yfit))
   /\ IsTset => (ProperAll(c.ypos) /\ ProperAll(exp.coeff) /\ ProperAll(exp.yfit) /\ ProperAll(exp.ygrid) /\ ProperAll(exp.yign)
                  /\ AllProper(exp.grid) /\ \A k \in 1..Len(c.xpos) : AllProper(TsXvec(c, k, c.jump)))
 (* ---- laws of the bases ---- *)
@@ -240,6 +269,12 @@ C13_NoBetterNeighbour ==
   (IsFit /\ c.fam = "general" /\ c.xs = XSet(1)) =>      \* (on the halves only: the numbers get large)
      \A j \in 1..c.nc : \A d \in {-1, 1} :
         c.ia[j] => QLt(Zero, Chi2Diff(c, exp.res, [exp.res EXCEPT ![j] = QAdd(@, I(d))]))
+(* ---- laws of a call history: every call is judged on its own arguments ---- *)
+C13_HistoryPerCall == IsHist => \A k \in 1..Len(c.calls) :
+                         /\ IsWLS(c.calls[k], exp[k].res)
+                         /\ \A j \in FixedSet(c.calls[k]) : exp[k].res[j] = c.calls[k].ians[j]
+                         /\ (c.fm = "true") => exp[k].res = c.calls[k].gen
+                         /\ \A k2 \in 1..Len(c.calls) : (c.calls[k2].ia = c.calls[k].ia) => exp[k2] = exp[k]
 (* ---- laws of the trace set ---- *)
 C13_TsetExact == (IsTset /\ ~c.noisy) => \A k \in 1..Len(c.xpos) : IsExactCombination(TsProblem(c, k), exp.coeff[k])
 C13_TsetWLS == IsTset => \A k \in 1..Len(c.xpos) : IsWLS(TsProblem(c, k), exp.coeff[k])
